@@ -979,8 +979,9 @@ def _r5(ctx, m):
     n = 0
     for file, cls, meth, fn in render_functions(pkg):
         ctx.saw(file, f"{cls}.{meth}")
-        for c in ast.walk(fn):
-            if isinstance(c, ast.Call) and ast.unparse(c.func) == "NetworkInfo":
+        from ..pymodel import constructions
+        for c in constructions(pkg, fn, "NetworkInfo"):
+            if True:
                 n += 1
                 if any(isinstance(a, ast.Starred) for a in c.args) or any(k.arg is None for k in c.keywords):
                     ctx.unrec("R5", f"{cls}.{meth}:NetworkInfo(*..)", (file, c.lineno), "NetworkInfo is called with unpacked arguments: which value reaches which field is not decided")
